@@ -146,6 +146,10 @@ def run(ctx):
     wm = model(ctx)
     check_repeat(ctx)
     check_weaver(ctx, wm)
+    from .common import dt_function, dt_weaver, DT_RULE
+    ctx.rule('C12.4', DT_RULE)
+    n_ = dt_function(ctx, 'C12.4', REPEAT, {'x': 'x', 'y': 'x'}) + dt_weaver(ctx, 'C12.4', wm, ['repeat'])
+    ctx.floor('C12.4', n_, 1, 'in-place stores with a known buffer element type in repeat')
     ctx.notes.append('NOT DECIDED: that the loop-carried offsets accumulate to i*(span + last step) (an induction over the in-place updates), strict monotonicity, '
                      'and the composition law repeat(a) o repeat(b) = repeat(a*b).')
     ctx.trust('numpy.tile(a, r) is r copies of a in order; r = 1 gives an empty loop, hence the identity')
